@@ -66,6 +66,16 @@ CHECKS = {
         "Fresh object and recomputed object share the code path, so equality is expected to 1e-12; parameters changed only through set_prms.",
         "DESIGN.md C17",
     ),
+    "C18": (
+        "exploration",
+        "Hypothesis-generated definitions and dimension/parameter files compared attribute by attribute with an attribute model; negative cases must be refused",
+        "Generated MFADefinitions are built through the helper functions and from_data_reader / from_csv / from_excel (real files in a "
+        "temp dir) and every attribute of processes, flows, stocks, parameters and dimensions is compared with the definition; 13 kinds "
+        "of ill-formed definitions must raise; dimension files in every orientation / header / type / sheet variant must yield the "
+        "items in file order with the declared type.",
+        "Attribute model in props/c18_build.py; flow names distinct by construction; items are identifiers pandas does not re-interpret.",
+        "DESIGN.md C18",
+    ),
     "C09": (
         "exploration",
         "Hypothesis-generated DSM configurations checked against cohort-table invariants",
